@@ -86,3 +86,8 @@ add('C10', 'property-based testing over generated call histories (update/reset s
     'must equal that of a monitor constructed fresh at the last reset, and the sampling-violation counter must agree after every operation; reset() first is included.',
     'Trusted: a freshly constructed monitor as the reference; dense input restarts at time 0 after a reset.',
     'DESIGN.md section 5 C10')
+add('C06', 'property-based testing: generated (formula, data, semantics, io assignment, monitor kind) against the reference semantics with the interface-aware predicate rule; STANDARD vs io-declaration metamorphic check (Hypothesis)',
+    'All five semantics x random input/output assignments (inputs-only, outputs-only, mixed and variable-free predicates) on the four monitor kinds, compared with R-dt / R-ct '
+    'in which insensitive predicates contribute +-inf by satisfaction (0 under vacuity); under STANDARD the result must not depend on the declarations.',
+    'Trusted: vlib/refsem.py with the ia rule transcribed from the property text; undeclared io = output.',
+    'DESIGN.md section 5 C06')
